@@ -6,3 +6,5 @@ python3 "$HERE/gen/c20_sites.py" "$REPO" "$HERE/lean/RimeModel/Gen/CopySites.lea
 python3 "$HERE/gen/c19_tables.py" "$REPO" "$HERE/lean/RimeModel/Gen/KeyTables.lean" > /dev/null
 python3 "$HERE/gen/keymaps.py" "$REPO" "$HERE/lean/RimeModel/Gen/Keymaps.lean" > /dev/null
 python3 "$HERE/gen/c17_members.py" "$REPO" "$HERE/lean/RimeModel/Gen/UserDbMembers.lean" "$HERE/harness/gen/c17_members.inc" > /dev/null
+python3 "$HERE/gen/c15_session_api.py" "$REPO" "$HERE/lean/RimeModel/Gen/SessionApi.lean" > /dev/null
+python3 "$HERE/gen/deploy_facts.py" "$REPO" "$HERE/lean/RimeModel/Gen/DeployFacts.lean" > /dev/null
